@@ -127,6 +127,8 @@ class Check:
         need = ['muh']
         if self.spec and self.spec.get('vamh'):
             need.append('vamh')
+            if self.spec['vamh'].get('race'):
+                need.append('vamh_race')
         for e in (self.spec or {}).get('eng', {}):
             if os.path.exists('%s/harness/cmd/%s/main.go' % (V, e)):
                 need.append(e)
@@ -134,6 +136,9 @@ class Check:
         if rc != 0:
             notes.append('harness build failed: ' + (out + err)[-2000:])
             self.build_fail = 'harness'
+        # the lock/access skeleton of vam (C12) is regenerated from /repo's current tree on every run
+        self.skeleton_rc, sk_out, sk_err = sh(['bash', V + '/bin/gen-skeleton'], timeout=600)
+        self.skeleton_log = (sk_out + sk_err)[-1500:]
         rc, out, err = sh(['bash', V + '/bin/build-model'], timeout=3400)
         self.proof['log'] = (out + err)[-4000:]
         self.model_ok = os.path.exists(B + '/ocaml/driver')
@@ -187,9 +192,20 @@ class Check:
         rc, out, err = sh('coqc -Q theories Arsenal -Q Props Arsenal.Props Props/%s.v' % self.pid, cwd=COQ, timeout=1800)
         pr['assumptions'] = out.strip()
         closed = out.count('Closed under the global context')
-        axioms = [l for l in out.split('\n') if l.strip() and 'Closed under' not in l and not l.startswith('Axioms:')]
+        axioms, in_ax = [], False
+        for l in out.split('\n'):
+            if l.startswith('Axioms:'):
+                in_ax = True
+                continue
+            if in_ax:
+                if l.strip() == '' or 'Closed under' in l or l.startswith('     =') or not l.startswith(' ') and ':' not in l:
+                    in_ax = False
+                else:
+                    axioms.append(l.strip())
         pr['axioms'] = axioms
         pr['n_theorems'] = closed + (1 if axioms else 0)
+        if self.pid == 'C12' and getattr(self, 'skeleton_rc', 0) != 0:
+            bad.append('lock skeleton extractor failed on the current source: ' + getattr(self, 'skeleton_log', ''))
         pr['ok'] = (rc == 0 and not bad and closed > 0 and not axioms)
         if rc != 0:
             pr['bad'].append('Props/%s.v does not compile: %s' % (self.pid, (out + err)[-1500:]))
@@ -540,6 +556,23 @@ class Check:
             rc2, sout, serr = sh([B + '/vamh', 'racesum', self.rundir + '/race.err'], timeout=300)
             self.cov['race'] = dict(exit=rc, summary=sout[-3000:])
             self.race_exit, self.race_summary = rc, sout
+            try:
+                rj = json.loads(out[out.index('{'):])
+                self.cov['race']['ops'] = rj.get('ops')
+                self.cov['evaluations'] += sum((rj.get('ops') or {}).values())
+                probs = []
+                if rj.get('panics'): probs.append('panics: %s' % rj['panics'])
+                if rj.get('valid_usage_violations'): probs.append('valid usage violations: %s' % rj['valid_usage_violations'])
+                if rj.get('own_bytes_corrupted'): probs.append('own bytes corrupted: %s' % rj['own_bytes_corrupted'])
+                if rj.get('hang'): probs.append('hang (deadlock?)')
+                if rj.get('final_state_problems'): probs.append('final state: %s' % rj['final_state_problems'])
+            except Exception as e:
+                probs = ['race run produced no summary: %s' % e]
+            if rc == 66 or 'DATA RACE' in err:
+                probs.append('data race reported by the Go race detector: ' + sout[:600])
+            if probs and self.pid == 'C12':
+                rp = self.write_note('race', '\n'.join(probs) + '\n' + err[-4000:])
+                self.violations.append((rp, 'concurrent stress run: ' + probs[0][:300], True))
 
     def write_note(self, tag, text):
         rp = '%s/replays/%s-%s.txt' % (V, self.pid, tag)
